@@ -294,6 +294,19 @@ pub fn seceq(ws: &[&str]) -> String {
             if !refl {
                 return "not-reflexive".to_string();
             }
+            // the same contents built along another path (a buffer with room to spare, grown piecewise): equal, and hashing equally
+            let roomy = |s: &str| {
+                let mut t = String::with_capacity(s.len() + 37);
+                for ch in s.chars() {
+                    t.push(ch);
+                }
+                t.reserve(64);
+                t
+            };
+            let (xr, yr) = ($t::new(roomy(&a)), $t::new(roomy(&b)));
+            if !(x == xr) || !(yr == y) || h(&x) != h(&xr) || h(&y) != h(&yr) || (xr == yr) != eq {
+                return "answer-depends-on-how-the-string-was-built".to_string();
+            }
             let content = if a == b { 1 } else { 0 };
             if eq {
                 // equal values must hash equally wherever the hash is taken: also on another thread
